@@ -273,6 +273,120 @@ pub fn syntax_family() -> Vec<Syntax> {
     ]
 }
 
+/// characters random delimiters are made of (no alphanumerics, quotes or whitespace; `+` is left
+/// out because it would be indistinguishable from a whitespace marker)
+const DELIM_CHARS: [&str; 22] = ["<", ">", "%", "#", "{", "}", "[", "]", "(", ")", "@", "$", "!", "=", "/", "*", "é", "~", "|", "&", "-", ":"];
+
+/// A random *valid and unambiguous* delimiter configuration decoded from bytes, or None when the
+/// bytes spell an ambiguous one. Valid as the builder defines it (start delimiters non-empty and
+/// pairwise distinct, end delimiters non-empty); unambiguous = no end delimiter begins with a
+/// marker character, and no start delimiter is another start delimiter followed by `-` (then
+/// `<%-` could be either a block start with a marker or the longer delimiter).
+/// Prefix-sharing, self-overlapping and single-character delimiters are all wanted.
+pub fn random_syntax(bytes: &[u8], line_mode: bool) -> Option<Syntax> {
+    let mut it = bytes.iter().copied().chain(std::iter::repeat(0));
+    let mut delim = |max_len: usize| -> String {
+        let n = 1 + (it.next().unwrap() as usize % max_len);
+        (0..n).map(|_| DELIM_CHARS[it.next().unwrap() as usize % DELIM_CHARS.len()]).collect()
+    };
+    let s = Syntax {
+        block_start: delim(4),
+        block_end: delim(3),
+        var_start: delim(4),
+        var_end: delim(3),
+        comment_start: delim(4),
+        comment_end: delim(3),
+        line_statement_prefix: None,
+        line_comment_prefix: None,
+    };
+    let starts = [&s.block_start, &s.var_start, &s.comment_start];
+    for (i, a) in starts.iter().enumerate() {
+        for (j, b) in starts.iter().enumerate() {
+            if i != j && (a == b || b.starts_with(&format!("{a}-"))) {
+                return None;
+            }
+        }
+    }
+    for e in [&s.block_end, &s.var_end, &s.comment_end] {
+        if e.starts_with('-') {
+            return None;
+        }
+    }
+    // a comment must be able to hold its (fixed) content
+    if "c".contains(s.comment_end.as_str()) {
+        return None;
+    }
+    if line_mode && [&s.block_start, &s.var_start, &s.comment_start, &s.block_end, &s.var_end, &s.comment_end].iter().any(|d| d.contains('#')) {
+        return None;
+    }
+    Some(s)
+}
+
+/// Could the end delimiter (alone or behind a marker character) be read inside this tag body
+/// before the body is over? The engine looks for it wherever no bracket is open, outside string
+/// literals. Over-approximation: every such position counts, not only token starts.
+pub fn inner_conflicts(inner: &str, end: &str) -> bool {
+    let b = inner.as_bytes();
+    let mut depth = 0i32;
+    let mut i = 0usize;
+    while i < b.len() {
+        let c = b[i];
+        if c == b'"' {
+            i += 1;
+            while i < b.len() && b[i] != b'"' {
+                if b[i] == b'\\' {
+                    i += 1;
+                }
+                i += 1;
+            }
+            i += 1;
+            continue;
+        }
+        if depth <= 0 && inner.is_char_boundary(i) {
+            let rest = &inner[i..];
+            if rest.starts_with(end) || ((c == b'-' || c == b'+') && rest[1..].starts_with(end)) {
+                return true;
+            }
+        }
+        match c {
+            b'(' | b'[' | b'{' => depth += 1,
+            b')' | b']' | b'}' => depth -= 1,
+            _ => {}
+        }
+        i += 1;
+    }
+    false
+}
+
+/// true when some tag body of the printed program could be cut short by its own end delimiter
+pub fn program_conflicts(body: &[Stmt], syntax: &Syntax) -> bool {
+    // print with sentinel delimiters that cannot occur in a body, then look at every body
+    let probe = Syntax {
+        block_start: "\u{1}B".into(),
+        block_end: "\u{2}".into(),
+        var_start: "\u{1}V".into(),
+        var_end: "\u{2}".into(),
+        comment_start: "\u{1}C".into(),
+        comment_end: "\u{2}".into(),
+        line_statement_prefix: None,
+        line_comment_prefix: None,
+    };
+    let src = print::template(body, &probe);
+    for chunk in src.split('\u{1}').skip(1) {
+        let Some(endpos) = chunk.find('\u{2}') else { continue };
+        let (kind, inner) = chunk[..endpos].split_at(1);
+        let end = match kind {
+            "B" => &syntax.block_end,
+            "V" => &syntax.var_end,
+            _ => continue,
+        };
+        if inner_conflicts(inner, end) {
+            return true;
+        }
+    }
+    false
+}
+
 /// text alphabet with partial and look-alike delimiters
 const LOOKALIKES: [&str; 28] = [
     "<", "%", ">", "<%-x", "{", "}", "$", "#", "\\", "\\BLOCK", "\\VAR", "[", "]", "(", ")", "@", "<!--", "-->", "<!-", "é", "=",
@@ -363,16 +477,19 @@ fn guard_boundaries(body: &mut Vec<Stmt>, syntax: &Syntax) {
                 for syn in [&def, syntax] {
                     let starts = [&syn.block_start, &syn.var_start, &syn.comment_start];
                     for opening in starts {
-                        let joined = format!("{t}{opening}");
-                        for d in starts {
-                            let mut from = 0;
-                            while let Some(p) = joined[from..].find(d.as_str()) {
-                                if from + p < t.len() {
-                                    bad = true;
-                                }
-                                from += p + 1;
-                                while !joined.is_char_boundary(from) {
-                                    from += 1;
+                        // (the tag may carry a whitespace marker, which can complete a delimiter too)
+                        for mark in ["", "-", "+"] {
+                            let joined = format!("{t}{opening}{mark}");
+                            for d in starts {
+                                let mut from = 0;
+                                while let Some(p) = joined[from..].find(d.as_str()) {
+                                    if from + p < t.len() {
+                                        bad = true;
+                                    }
+                                    from += p + 1;
+                                    while !joined.is_char_boundary(from) {
+                                        from += 1;
+                                    }
                                 }
                             }
                         }
@@ -511,9 +628,21 @@ impl Part for Delimiters {
             free::template(o),
             0..n,
             prop::collection::vec(prop::collection::vec(0..LOOKALIKES.len(), 0..5), 24),
+            prop::collection::vec(any::<u8>(), 0..24),
         )
-            .prop_map(move |(mut body, si, texts)| {
-                let syntax = fam[si].clone();
+            .prop_map(move |(body0, si, texts, sbytes)| {
+                // half of the cases use a random delimiter configuration; a configuration under
+                // which a tag body of this program could be cut short falls back to the family
+                let mut candidates = vec![];
+                if sbytes.len() >= 12 {
+                    if let Some(r) = random_syntax(&sbytes, false) {
+                        candidates.push(r);
+                    }
+                }
+                candidates.push(fam[si].clone());
+                let mut built = None;
+                for syntax in candidates {
+                let mut body = body0.clone();
                 let mut i = 0;
                 let mut pool = || {
                     i += 1;
@@ -533,7 +662,11 @@ impl Part for Delimiters {
                 };
                 fix(&mut body);
                 guard_boundaries(&mut body, &syntax);
-                SyntaxCase { body, syntax }
+                if built.is_none() && !program_conflicts(&body, &syntax) {
+                    built = Some(SyntaxCase { body, syntax });
+                }
+                }
+                built.expect("the family syntaxes never conflict with a tag body")
             })
             .boxed()
     }
@@ -553,6 +686,9 @@ impl Part for Delimiters {
             }
         });
         let mut v = Verdict::pass(has_prefix);
+        if !syntax_family().contains(&c.syntax) {
+            v.labels.push("random_delimiters");
+        }
         match (base, custom) {
             (Ok(a), Ok(b)) => {
                 if a != b {
@@ -690,7 +826,300 @@ impl Part for PlainText {
     }
 }
 
-crate::declare_parts!(WsModel, Delimiters, PlainText);
+
+// ------------------------------------------------------------------ (d) styled programs against the reference interpreter
+
+/// A well-typed program of the core fragment (C03's generator), its text statements replaced by
+/// whitespace and delimiter look-alikes, written in a random *style*: one of 13 delimiter sets,
+/// `-`/`+` markers on either side of any tag, free spacing inside tags, whitespace between tags
+/// that a `-` removes again, comments, text written as raw blocks, block tags written as line
+/// statements, under any of the 8 whitespace settings. The whitespace rules (model::ws) say which
+/// characters of every text run survive; the reference interpreter renders the program with
+/// exactly those texts; the engine must render the styled source to the same output.
+#[derive(Clone, Debug, Serialize, Deserialize)]
+pub struct StyledCase {
+    pub tape: Vec<u8>,
+    pub budget: u16,
+    pub ctx_variant: u8,
+    pub loop_controls: bool,
+    /// 0 = default delimiters, 1..=12 = syntax_family()[n-1]
+    pub syntax_idx: u8,
+    pub line_mode: bool,
+    pub settings: u8,
+    pub style: Vec<u8>,
+    pub texts: Vec<Vec<usize>>,
+    /// when these spell an unambiguous random delimiter configuration it replaces `syntax_idx`
+    #[serde(default)]
+    pub syntax_bytes: Vec<u8>,
+}
+
+pub struct StyledPrograms;
+
+const STYLED_TEXTS: [&str; 40] = [
+    "<", "%", ">", "<%-x", "{", "}", "$", "#", "\\", "\\BLOCK", "\\VAR", "[", "]", "(", ")", "@", "<!--", "-->", "<!-", "é", "=",
+    "text ", "\n", " ", "{ {", "% >", "<<-", "a<b", "  ", "\t", "\r\n", " \n ", "\n\n", "x\n", "\n  ", "-", "+", "y", "\u{a0}", "  \n",
+];
+
+fn replace_texts(body: &mut Vec<Stmt>, f: &mut dyn FnMut(usize, &mut String)) {
+    let mut n = 0usize;
+    map_texts(body, &mut |t| {
+        f(n, t);
+        n += 1;
+    });
+}
+
+fn prune_empty_texts(body: &mut Vec<Stmt>) {
+    body.retain(|s| !matches!(s, Stmt::Text(t) if t.is_empty()));
+    for s in body.iter_mut() {
+        match s {
+            Stmt::If { branches, else_ } => {
+                for (_, b) in branches.iter_mut() {
+                    prune_empty_texts(b);
+                }
+                if let Some(e) = else_ {
+                    prune_empty_texts(e);
+                }
+            }
+            Stmt::For { body, else_, .. } => {
+                prune_empty_texts(body);
+                if let Some(e) = else_ {
+                    prune_empty_texts(e);
+                }
+            }
+            Stmt::SetBlock { body, .. }
+            | Stmt::With { body, .. }
+            | Stmt::FilterBlock { body, .. }
+            | Stmt::AutoEscape { body, .. }
+            | Stmt::Macro { body, .. }
+            | Stmt::CallBlock { body, .. }
+            | Stmt::Block { body, .. } => prune_empty_texts(body),
+            _ => {}
+        }
+    }
+}
+
+pub struct StyledBuild {
+    pub syntax: Syntax,
+    pub settings: Settings,
+    pub source: String,
+    /// the program with every text statement reduced to the characters the rules let through
+    pub effective: Vec<Stmt>,
+    pub labels: Vec<&'static str>,
+    pub nontrivial: bool,
+}
+
+pub fn build_styled(c: &StyledCase) -> Result<StyledBuild, String> {
+    let fam = syntax_family();
+    let mut syntax = if c.syntax_idx == 0 { Syntax::default() } else { fam[(c.syntax_idx as usize - 1) % fam.len()].clone() };
+    let mut random = false;
+    if c.syntax_bytes.len() >= 12 {
+        if let Some(r) = random_syntax(&c.syntax_bytes, c.line_mode) {
+            let body = crate::gen::typed::program(&c.tape, c.budget as i32, c.loop_controls);
+            if !program_conflicts(&body, &r) {
+                syntax = r;
+                random = true;
+            }
+        }
+    }
+    if c.line_mode {
+        syntax.line_statement_prefix = Some("#!".into());
+        syntax.line_comment_prefix = Some("##".into());
+    }
+    // trim_blocks / lstrip_blocks are not combined with line statements (what a line statement
+    // followed by a blank line renders under trim_blocks is not documented)
+    let settings = if c.line_mode { Settings { trim_blocks: false, lstrip_blocks: false, keep_trailing_newline: c.settings & 4 != 0 } } else { settings(c.settings) };
+    let mut body = crate::gen::typed::program(&c.tape, c.budget as i32, c.loop_controls);
+    // texts: the generator's own markers, look-alikes, or both
+    let mut i = 0usize;
+    map_texts(&mut body, &mut |t| {
+        let pick = &c.texts[i % c.texts.len()];
+        i += 1;
+        let extra: String = pick.iter().skip(1).map(|k| STYLED_TEXTS[*k % STYLED_TEXTS.len()]).collect();
+        match pick.first().copied().unwrap_or(0) % 4 {
+            0 => {}
+            1 | 2 => t.push_str(&extra),
+            _ => *t = extra,
+        }
+    });
+    merge_texts(&mut body);
+    map_texts(&mut body, &mut |t| {
+        let mut cleaned = text_for_str(&syntax, t);
+        if c.line_mode {
+            // no text may spell a line prefix: both begin with `#`
+            cleaned = cleaned.replace('#', "_");
+        }
+        *t = cleaned;
+    });
+    guard_boundaries(&mut body, &syntax);
+    prune_empty_texts(&mut body);
+    merge_texts(&mut body);
+    // (merging after pruning can only join texts that were separated by an empty one; clean again)
+    map_texts(&mut body, &mut |t| *t = text_for_str(&syntax, t));
+    guard_boundaries(&mut body, &syntax);
+
+    let (source, pieces) = print::template_styled(&body, &syntax, print::Style::new(c.style.clone(), c.line_mode));
+    let flat: Vec<ws::Piece> = pieces.iter().map(|p| p.0.clone()).collect();
+    // the rules are stated over maximal text runs
+    for w in flat.windows(2) {
+        if matches!((&w[0], &w[1]), (ws::Piece::Text(_), ws::Piece::Text(_))) {
+            return Err(format!("printer wrote two adjacent text pieces: {source:?}"));
+        }
+    }
+    let eff = ws::effective_texts(&flat, settings);
+    let mut by_id: std::collections::BTreeMap<usize, String> = Default::default();
+    let mut labels: Vec<&'static str> = vec![];
+    let mut nontrivial = false;
+    for ((piece, id), e) in pieces.iter().zip(eff.iter()) {
+        match (piece, id, e) {
+            (ws::Piece::Text(orig), Some(id), Some(e)) => {
+                if e != orig {
+                    nontrivial = true;
+                    labels.push("text_trimmed");
+                }
+                by_id.insert(*id, e.clone());
+            }
+            (ws::Piece::Text(_), None, Some(e)) => {
+                if !e.is_empty() {
+                    return Err(format!("inserted whitespace is not removed by the rules: {source:?}"));
+                }
+                labels.push("inserted_blank");
+            }
+            (ws::Piece::Tag { inert, left, right, src, .. }, _, _) => {
+                if *inert {
+                    labels.push(if src.contains("##") { "line_comment" } else { "line_statement" });
+                    nontrivial = true;
+                }
+                if *left == Marker::Minus || *right == Marker::Minus {
+                    labels.push("minus_marker");
+                }
+                if *left == Marker::Plus || *right == Marker::Plus {
+                    labels.push("plus_marker");
+                }
+                if src.contains("endraw") {
+                    labels.push("raw_text");
+                }
+            }
+            _ => {}
+        }
+    }
+    let mut effective = body.clone();
+    let mut missing = false;
+    replace_texts(&mut effective, &mut |n, t| match by_id.get(&n) {
+        Some(e) => *t = e.clone(),
+        None => missing = true,
+    });
+    if missing {
+        return Err(format!("a text statement has no piece: {source:?}"));
+    }
+    if !syntax.is_default() {
+        labels.push("custom_delimiters");
+    }
+    if random {
+        labels.push("random_delimiters");
+    }
+    labels.sort();
+    labels.dedup();
+    Ok(StyledBuild { syntax, settings, source, effective, labels, nontrivial })
+}
+
+impl Part for StyledPrograms {
+    type Case = StyledCase;
+    const NAME: &'static str = "styled_programs_vs_reference";
+
+    fn strategy(tier: Tier) -> BoxedStrategy<StyledCase> {
+        (
+            prop::collection::vec(any::<u8>(), 20..tier.pick(200usize, 320)),
+            20u16..80,
+            0u8..4,
+            prop::bool::weighted(0.2),
+            0u8..13,
+            prop::bool::weighted(0.3),
+            0u8..8,
+            prop::collection::vec(any::<u8>(), 0..64),
+            prop::collection::vec(prop::collection::vec(0..STYLED_TEXTS.len(), 1..5), 12),
+            prop::collection::vec(any::<u8>(), 0..24),
+        )
+            .prop_map(|(tape, budget, ctx_variant, loop_controls, syntax_idx, line_mode, settings, style, texts, syntax_bytes)| StyledCase {
+                tape,
+                budget,
+                ctx_variant,
+                loop_controls,
+                syntax_idx,
+                line_mode,
+                settings,
+                style,
+                texts,
+                syntax_bytes,
+            })
+            .boxed()
+    }
+
+    fn check(c: &StyledCase) -> Verdict {
+        let b = match build_styled(c) {
+            Ok(b) => b,
+            Err(why) => {
+                let mut v = Verdict::pass(false);
+                v.set_fail("harness_styled_printer", why);
+                return v;
+            }
+        };
+        let mut v = Verdict::pass(b.nontrivial);
+        v.labels.extend(b.labels.iter().copied());
+        let (engine_ctx, model_ctx) = crate::props::c03::contexts(c.ctx_variant);
+        let mut templates = std::collections::BTreeMap::new();
+        templates.insert("t.txt".to_string(), b.effective.clone());
+        let want = crate::refint::Interp::new(&templates, model_ctx).render("t.txt");
+        let mut env = Environment::new();
+        env.set_fuel(Some(500_000));
+        match b.syntax.to_config() {
+            Ok(cfg) => env.set_syntax(cfg),
+            Err(e) => {
+                v.set_fail("syntax_config_rejected", format!("{e}"));
+                return v;
+            }
+        }
+        env.set_trim_blocks(b.settings.trim_blocks);
+        env.set_lstrip_blocks(b.settings.lstrip_blocks);
+        env.set_keep_trailing_newline(b.settings.keep_trailing_newline);
+        let got = env.render_named_str("t.txt", &b.source, Value::from_pairs(engine_ctx));
+        match (want, got) {
+            (Err(crate::refint::RErr::Unsupported(_)), _) => {
+                v.nontrivial = false;
+                v.labels.push("outside_fragment");
+            }
+            (Ok(w), Ok(g)) => {
+                if w != g {
+                    v.set_fail(
+                        "styled_program_differs",
+                        format!(
+                            "the whitespace rules and the documented semantics give {w:?}\nthe engine renders {g:?}\nsettings {:?}, syntax {:?}\nsource: {:?}",
+                            b.settings, b.syntax, b.source
+                        ),
+                    );
+                }
+            }
+            (Ok(w), Err(e)) => v.set_fail(
+                "styled_program_fails",
+                format!("expected {w:?} but the engine fails: {e:#}\nsettings {:?}, syntax {:?}\nsource: {:?}", b.settings, b.syntax, b.source),
+            ),
+            (Err(e), Ok(g)) => v.set_fail(
+                "styled_program_accepts_documented_error",
+                format!("documented semantics fail with {e:?} but the engine renders {g:?}\nsource: {:?}", b.source),
+            ),
+            (Err(_), Err(_)) => v.labels.push("both_fail"),
+        }
+        v
+    }
+
+    fn show(c: &StyledCase) -> serde_json::Value {
+        match build_styled(c) {
+            Ok(b) => serde_json::json!({"source": b.source, "syntax": b.syntax, "settings": b.settings, "ctx_variant": c.ctx_variant}),
+            Err(e) => serde_json::json!({"harness_error": e}),
+        }
+    }
+}
+
+crate::declare_parts!(WsModel, Delimiters, PlainText, StyledPrograms);
 
 pub fn run(ctx: &mut Ctx) {
     ctx.rule = "(a) sequences of up to 8 segments: text over {space, tab, LF, CRLF, lone CR between letters, x, braces, %, #, NBSP, form feed, -, +} and tags {variable, block, comment, raw with content incl. tag look-alikes} with every marker in {none,-,+} on either side (and on both raw tags) x the 8 settings, compared with an independent model of the rules (one trailing line ending; - eats all adjacent whitespace; trim_blocks eats one line ending after block/comment/raw tags; lstrip_blocks eats horizontal whitespace between line start and a block/comment/raw tag; + disables the last two); all sequences of length <= 2 and all text-tag-text / tag-text-tag triples over a 37-symbol alphabet enumerated. (b) free-mode single-file programs (non-extreme) whose text statements are drawn from partial and look-alike delimiters, printed with the default delimiters and with each of 12 delimiter sets (prefix-sharing <% <%= <%#, nested << <<<, single brace, LaTeX, shared end markers, @@..@@, HTML comments, %%, {%% {{{ {##, multi-byte): same rendering or same error kind. (c) text spelling default delimiters under a non-overlapping custom syntax is verbatim; a loop/if written with line statements and line comments renders like whole-line block tags, with LF and with CRLF line endings. Non-trivial: (a) a tag adjacent to text containing a line ending; (b) text containing the first character of a start delimiter. Distinct by case.".into();
@@ -704,4 +1133,5 @@ pub fn run(ctx: &mut Ctx) {
     ctx.run_part::<WsModel>(t.pick(600_000, 6_000_000));
     ctx.run_part::<Delimiters>(t.pick(100_000, 2_000_000));
     ctx.run_part::<PlainText>(t.pick(30_000, 300_000));
+    ctx.run_part::<StyledPrograms>(t.pick(60_000, 3_000_000));
 }
